@@ -16,7 +16,7 @@ import re
 from .explore import Inadmissible
 
 DECOS = ['imp-card', 'dot-numbers', 'exp-numbers', 'kw-extra', 'upper', 'split5', 'amp', 'comments', 'tabs',
-         'lead-blanks', 'message', 'wide', 'many-lines']
+         'lead-blanks', 'message', 'wide', 'many-lines', 'mixed-cont']
 
 FLOAT = re.compile(r'^[-+]?(\d+\.\d*|\.\d+)$')
 KW_START = re.compile(r'(?i)(\*?fill\b|\*?trcl\b|imp:|\bu=|\blat=|\bvol=|\bmat=|\brho=|\btmp=)')
@@ -248,6 +248,37 @@ def apply(st, deco):
                 return c
             return words[0] + ' ' + words[1] + ''.join('\n      ' + w for w in words[2:] if w)
         new = [[many(c) for c in lst] for lst in (st.cells, st.surfs, st.data)]
+        if new == [st.cells, st.surfs, st.data]:
+            raise Inadmissible('no card long enough')
+        st.cells, st.surfs, st.data = new
+    elif deco == 'mixed-cont':
+        # cards over three or more lines mixing both continuation styles: a line continued by indentation may
+        # itself end with & and be continued by a line that starts in column 1
+        def mixed(c):
+            if '\n' in c or '$' in c or '&' in c or re.match(r'^\s{0,4}[cC](\s|$)', c):
+                return c
+            words = [w for w in c.split(' ') if w]
+            if len(words) < 5:
+                return c
+            k = max(1, len(words) // 4)
+            chunks = [words[i:i + k] for i in range(0, len(words), k)]
+            lines = [' '.join(chunks[0])]
+            prev_amp = False
+            for j, ch_ in enumerate(chunks[1:], 1):
+                text = ' '.join(ch_)
+                last = j == len(chunks) - 1
+                if prev_amp:
+                    line = text                 # continued by the & of the previous line: starts in column 1
+                    amp = False
+                else:
+                    line = '      ' + text      # continued by its indentation ...
+                    amp = not last and j % 2 == 1   # ... and may announce a further line with &
+                if amp:
+                    line += ' &'
+                prev_amp = amp
+                lines.append(line)
+            return '\n'.join(lines)
+        new = [[mixed(c) for c in lst] for lst in (st.cells, st.surfs, st.data)]
         if new == [st.cells, st.surfs, st.data]:
             raise Inadmissible('no card long enough')
         st.cells, st.surfs, st.data = new
